@@ -289,9 +289,10 @@ def pick_impl(w, it, trait, meth, args, rt=None):
     """choose among the crate's impls of trait::meth the one whose first parameter matches the
     runtime argument (by-value vs by-reference, type head)"""
     cands = []
-    for (s, t, m), name in w.prog.impl_index.items():
+    for (s, t, m), names in w.prog.impl_all.items():
         if t == trait and m == meth:
-            cands.append((s, name))
+            for name in names:
+                cands.append((s, name))
     if not cands:
         return None
     a0 = args[0] if args else None
@@ -642,6 +643,176 @@ def install(w):
             return a[0].fields[0]
         raise Unsupported("unwrap_or_default")
 
+    @reg("Option::and_then")
+    def opt_and_then(w, it, a, c):
+        if a[0].variant == "Some":
+            return it.call_closure(a[1], [a[0].fields[0]])
+        it.drop_value(a[1])
+        return mk_none()
+
+    @reg("Option::unwrap_or_else")
+    def opt_unwrap_or_else(w, it, a, c):
+        if a[0].variant == "Some":
+            it.drop_value(a[1])
+            return a[0].fields[0]
+        return it.call_closure(a[1], [])
+
+    @reg("Option::unwrap_or_default")
+    def opt_unwrap_or_default(w, it, a, c):
+        if a[0].variant == "Some":
+            return a[0].fields[0]
+        raise Unsupported("Option::unwrap_or_default")
+
+    @reg("Option::map_or")
+    def opt_map_or(w, it, a, c):
+        if a[0].variant == "Some":
+            it.drop_value(a[1])
+            return it.call_closure(a[2], [a[0].fields[0]])
+        it.drop_value(a[2])
+        return a[1]
+
+    @reg("Option::is_some_and")
+    def opt_is_some_and(w, it, a, c):
+        if a[0].variant == "Some":
+            return it.call_closure(a[1], [a[0].fields[0]])
+        it.drop_value(a[1])
+        return False
+
+    @reg("Option::ok_or_else")
+    def opt_ok_or_else(w, it, a, c):
+        if a[0].variant == "Some":
+            it.drop_value(a[1])
+            return mk_ok(a[0].fields[0])
+        return mk_err(it.call_closure(a[1], []))
+
+    @reg("Option::replace")
+    def opt_replace(w, it, a, c):
+        r = a[0]
+        old = it.load(r.cell, r.path)
+        it.store(r.cell, r.path, mk_some(a[1]))
+        return old
+
+    @reg("Option::insert", "Option::get_or_insert")
+    def opt_insert(w, it, a, c):
+        r = a[0]
+        old = it.load(r.cell, r.path)
+        if c.endswith("get_or_insert") and old.variant == "Some":
+            it.drop_value(a[1])
+        else:
+            it.drop_value(old)
+            it.store(r.cell, r.path, mk_some(a[1]))
+        return Ref(r.cell, tuple(r.path) + (("as", "Some"), 0), True)
+
+    @reg("Result::and_then")
+    def res_and_then(w, it, a, c):
+        if a[0].variant == "Ok":
+            return it.call_closure(a[1], [a[0].fields[0]])
+        it.drop_value(a[1])
+        return a[0]
+
+    @reg("Result::or_else")
+    def res_or_else(w, it, a, c):
+        if a[0].variant == "Err":
+            return it.call_closure(a[1], [a[0].fields[0]])
+        it.drop_value(a[1])
+        return a[0]
+
+    @reg("Result::unwrap_or_else")
+    def res_unwrap_or_else(w, it, a, c):
+        if a[0].variant == "Ok":
+            it.drop_value(a[1])
+            return a[0].fields[0]
+        return it.call_closure(a[1], [a[0].fields[0]])
+
+    @reg("Result::is_ok_and")
+    def res_is_ok_and(w, it, a, c):
+        if a[0].variant == "Ok":
+            return it.call_closure(a[1], [a[0].fields[0]])
+        it.drop_value(a[1])
+        it.drop_value(a[0].fields[0])
+        return False
+
+    @reg("Result::is_err_and")
+    def res_is_err_and(w, it, a, c):
+        if a[0].variant == "Err":
+            return it.call_closure(a[1], [a[0].fields[0]])
+        it.drop_value(a[1])
+        it.drop_value(a[0].fields[0])
+        return False
+
+    @reg("Result::as_ref", "Result::as_mut")
+    def res_as_ref(w, it, a, c):
+        r = a[0]
+        v = it.load(r.cell, r.path)
+        return mk_enum("Result", v.variant, Ref(r.cell, tuple(r.path) + (("as", v.variant), 0), c.endswith("as_mut")))
+
+    @reg("Result::unwrap_err", "Result::expect_err")
+    def res_unwrap_err(w, it, a, c):
+        if a[0].variant == "Err":
+            return a[0].fields[0]
+        raise RustPanic("called `Result::unwrap_err()` on an `Ok` value")
+
+    @reg("std::mem::take", "mem::take")
+    def mem_take(w, it, a, c):
+        r = a[0]
+        old = it.load(r.cell, r.path)
+        if isinstance(old, Agg) and old.name == "Option":
+            it.store(r.cell, r.path, mk_none())
+        elif isinstance(old, bool):
+            it.store(r.cell, r.path, False)
+        elif isinstance(old, IntV):
+            it.store(r.cell, r.path, IntV(0, old.bits, old.signed))
+        else:
+            raise Unsupported("mem::take of %r" % (old,))
+        return old
+
+    @reg("std::cmp::min", "cmp::min")
+    def cmp_min(w, it, a, c):
+        return a[0] if it.truth(it.binop("Le", a[0], a[1])) else a[1]
+
+    @reg("std::cmp::max", "cmp::max")
+    def cmp_max(w, it, a, c):
+        return a[0] if it.truth(it.binop("Ge", a[0], a[1])) else a[1]
+
+    @reg("Arc::strong_count")
+    def arc_strong_count(w, it, a, c):
+        return IntV(deref1(it, a[0]).rc[0], 64)
+
+    @reg("Arc::ptr_eq")
+    def arc_ptr_eq(w, it, a, c):
+        return deref1(it, a[0]).cell is deref1(it, a[1]).cell
+
+    @reg("Atomic::swap")
+    def atomic_swap(w, it, a, c):
+        at = deref(it, a[0])
+        old = at.fields[0]
+        at.fields[0] = a[1]
+        return old
+
+    @reg("Atomic::compare_exchange", "Atomic::compare_exchange_weak")
+    def atomic_cas(w, it, a, c):
+        at = deref(it, a[0])
+        old = at.fields[0]
+        eq = eq_value(w, it, old, a[1])
+        if it.truth(eq) if not isinstance(eq, bool) else eq:
+            at.fields[0] = a[2]
+            return mk_ok(old)
+        return mk_err(old)
+
+    @reg("Atomic::fetch_or")
+    def atomic_fetch_or(w, it, a, c):
+        at = deref(it, a[0])
+        old = at.fields[0]
+        at.fields[0] = it.binop("BitOr", old, a[1])
+        return old
+
+    @reg("Atomic::fetch_and")
+    def atomic_fetch_and(w, it, a, c):
+        at = deref(it, a[0])
+        old = at.fields[0]
+        at.fields[0] = it.binop("BitAnd", old, a[1])
+        return old
+
     # ---------------- Box<dyn Any>
     @reg("Box::downcast", "boxed::convert::downcast", "convert::downcast", "downcast")
     def box_downcast(w, it, a, c):
@@ -852,6 +1023,73 @@ def install(w):
     def dur_from_secs(w, it, a, c):
         return Agg("struct", "Duration", [a[0].v * 1000000000])
 
+    @reg("Duration::from_micros")
+    def dur_from_micros(w, it, a, c):
+        return Agg("struct", "Duration", [a[0].v * 1000])
+
+    @reg("Duration::as_secs")
+    def dur_as_secs(w, it, a, c):
+        d = deref(it, a[0]).fields[0]
+        return IntV(d // 1000000000 if isinstance(d, int) else z3.UDiv(d, z3.BitVecVal(1000000000, 64)), 64)
+
+    @reg("Duration::is_zero")
+    def dur_is_zero(w, it, a, c):
+        d = deref(it, a[0]).fields[0]
+        return d == 0 if isinstance(d, int) else z3.simplify(d == 0)
+
+    def dur_arith(kind):
+        def f(w, it, a, c):
+            x = deref(it, a[0]).fields[0]
+            y = deref(it, a[1])
+            y = y.fields[0] if isinstance(y, Agg) else y.v
+            if kind == "add":
+                r = x + y
+            elif kind == "sub":
+                if isinstance(x, int) and isinstance(y, int):
+                    if y > x:
+                        raise RustPanic("overflow when subtracting durations")
+                    r = x - y
+                else:
+                    r = x - y
+            elif kind == "satsub":
+                if isinstance(x, int) and isinstance(y, int):
+                    r = max(0, x - y)
+                else:
+                    xz = x if not isinstance(x, int) else z3.BitVecVal(x, 64)
+                    yz = y if not isinstance(y, int) else z3.BitVecVal(y, 64)
+                    r = z3.If(z3.UGE(xz, yz), xz - yz, z3.BitVecVal(0, 64))
+            elif kind == "mul":
+                r = x * y
+            elif kind == "div":
+                if isinstance(y, int) and y == 0:
+                    raise RustPanic("divide by zero")
+                r = x // y if isinstance(x, int) and isinstance(y, int) else z3.UDiv(x if not isinstance(x, int) else z3.BitVecVal(x, 64), y if not isinstance(y, int) else z3.BitVecVal(y, 64))
+            return Agg("struct", "Duration", [r if isinstance(r, int) else z3.simplify(r)])
+        return f
+    B["Duration::saturating_sub"] = dur_arith("satsub")
+    B["Duration::mul_f64"] = None
+    del B["Duration::mul_f64"]
+
+    @reg("Duration::checked_sub")
+    def dur_checked_sub(w, it, a, c):
+        x = deref(it, a[0]).fields[0]
+        y = deref(it, a[1]).fields[0]
+        ge = w.zge(x, y)
+        if it.ex.branch_bool(ge):
+            r = x - y
+            return mk_some(Agg("struct", "Duration", [r if isinstance(r, int) else z3.simplify(r)]))
+        return mk_none()
+
+    @reg("Duration::checked_add", "Duration::saturating_add")
+    def dur_checked_add(w, it, a, c):
+        x = deref(it, a[0]).fields[0]
+        y = deref(it, a[1]).fields[0]
+        r = x + y
+        d = Agg("struct", "Duration", [r if isinstance(r, int) else z3.simplify(r)])
+        return mk_some(d) if "checked" in c else d
+
+    w.dur_arith = dur_arith
+
     @reg("Duration::as_nanos")
     def dur_as_nanos(w, it, a, c):
         d = deref(it, a[0]).fields[0]
@@ -994,6 +1232,123 @@ def install(w):
         ch.tx_dropped = True
         w.touch()
         return mk_ok(UNIT)
+
+    @reg("tokio::sync::oneshot::Sender::is_closed")
+    def os_is_closed(w, it, a, c):
+        ch = deref(it, a[0]).c
+        w.acc(("os", ch.id), False)
+        return ch.rx_dropped
+
+    @reg("tokio::sync::oneshot::Receiver::try_recv")
+    def os_try_recv(w, it, a, c):
+        r = deref(it, a[0]).poll(it, None)
+        if r.variant == "Pending":
+            return mk_err(mk_enum("TryRecvError", "Empty"))
+        o = r.fields[0]
+        return mk_ok(o.fields[0]) if o.variant == "Ok" else mk_err(mk_enum("TryRecvError", "Disconnected"))
+
+    @reg("tokio::sync::oneshot::Receiver::close")
+    def os_rx_close(w, it, a, c):
+        ch = deref(it, a[0]).c
+        w.acc(("os", ch.id), True)
+        ch.rx_dropped = True
+        return UNIT
+
+    @reg("tokio::sync::mpsc::Receiver::is_empty")
+    def rx_is_empty(w, it, a, c):
+        ch = deref(it, a[0]).chan
+        w.acc(ch.key(), False)
+        return len(ch.buf) == 0
+
+    @reg("tokio::sync::mpsc::Receiver::len")
+    def rx_len(w, it, a, c):
+        ch = deref(it, a[0]).chan
+        w.acc(ch.key(), False)
+        return IntV(len(ch.buf), 64)
+
+    @reg("tokio::sync::mpsc::Receiver::is_closed")
+    def rx_is_closed(w, it, a, c):
+        ch = deref(it, a[0]).chan
+        w.acc(ch.key(), False)
+        w.acc(ch.txkey(), False)
+        return ch.closed or ch.tx_count == 0
+
+    @reg("tokio::sync::mpsc::Sender::same_channel")
+    def tx_same(w, it, a, c):
+        return deref(it, a[0]).chan is deref(it, a[1]).chan
+
+    @reg("tokio::sync::mpsc::Receiver::blocking_recv")
+    def rx_blocking_recv(w, it, a, c):
+        return w.block_on(it, W.RecvFut(deref(it, a[0])))
+
+    class Sleep(ModelObj):
+        type_name = "Sleep"
+
+        def __init__(self, w, d):
+            self.deadline = w.now + d
+            w.deadlines.append(self.deadline)
+
+        def poll(self, it, cx):
+            w = it.env
+            w.acc(("clock",), False)
+            if it.ex.branch_bool(w.zge(w.now, self.deadline)):
+                return mk_ready(UNIT)
+            return mk_pending()
+
+    @reg("tokio::time::sleep", "time::sleep")
+    def tk_sleep(w, it, a, c):
+        return Sleep(w, a[0].fields[0])
+
+    class YieldNow(ModelObj):
+        type_name = "YieldNow"
+
+        def __init__(self):
+            self.done = False
+
+        def poll(self, it, cx):
+            if self.done:
+                return mk_ready(UNIT)
+            self.done = True
+            it.env.current_task_self_wake()
+            return mk_pending()
+
+    @reg("tokio::task::yield_now", "task::yield_now")
+    def tk_yield(w, it, a, c):
+        return YieldNow()
+
+    @reg("tokio::time::Instant::now")
+    def tk_instant_now(w, it, a, c):
+        return Agg("struct", "Instant", [w.now])
+
+    @reg("tokio::sync::mpsc::Sender::closed")
+    def tx_closed(w, it, a, c):
+        ch = deref(it, a[0]).chan
+
+        class Closed(ModelObj):
+            type_name = "Closed"
+
+            def poll(self, it, cx):
+                w.acc(ch.key(), False)
+                return mk_ready(UNIT) if ch.closed else mk_pending()
+        return Closed()
+
+    @reg("JoinHandle::abort", "tokio::task::JoinHandle::abort")
+    def jh_abort(w, it, a, c):
+        t = deref(it, a[0]).task
+        if t.state == "running":
+            t.state = "cancelled"
+            if t.fut is not None:
+                f, t.fut = t.fut, None
+                it.drop_value(f)
+            w.acc(("task", t.id), True)
+            w.touch()
+        return UNIT
+
+    @reg("JoinHandle::is_finished", "tokio::task::JoinHandle::is_finished")
+    def jh_is_finished(w, it, a, c):
+        t = deref(it, a[0]).task
+        w.acc(("task", t.id), False)
+        return t.state != "running"
 
     @reg("tokio::sync::oneshot::Receiver::blocking_recv")
     def os_blocking_recv(w, it, a, c):
